@@ -9,3 +9,4 @@ register_simp_attr keepsInit
 register_simp_attr keepsSad
 register_simp_attr keepsOps
 register_simp_attr keepsN13
+register_simp_attr keepsGen
